@@ -68,14 +68,31 @@ def replay_case(arg):
     init = trail[0]["rows"]
     flat = np.array([v for r in init for v in r])
     lens = [len(r) for r in init]
-    caller = None
+    # every copying constructor form; `callers` are the caller's ndarrays handed to it (none may be aliased)
+    callers = []
+    if form == "rect2d" and len(set(lens)) != 1:
+        form = "nested"
+    if form == "single-flat" and len(init) != 1:
+        form = "flat-ndlens"
     if form == "nested":
-        a = ra.RaggedArray([np.array(r) for r in init])
+        callers = [np.array(r) for r in init]
+        a = ra.RaggedArray(list(callers))
     elif form == "lists":
         a = ra.RaggedArray([list(r) for r in init])
+    elif form == "rect2d":
+        callers = [np.array(init)]
+        a = ra.RaggedArray(callers[0])
+    elif form == "single-flat":
+        callers = [flat.copy()]
+        a = ra.RaggedArray(callers[0])
+    elif form == "flat-ndlens":
+        callers = [flat.copy(), np.array(lens)]
+        a = ra.RaggedArray(callers[0], lengths=callers[1])
     else:
-        caller = flat.copy()
-        a = ra.RaggedArray(caller, lengths=lens, copy=True)
+        callers = [flat.copy()]
+        a = ra.RaggedArray(callers[0], lengths=lens, copy=True)
+    caller = callers[0] if callers and form not in ("nested",) else None
+    callers0 = [c.copy() for c in callers]
     out = []
     b0 = observe(ra, a, init)
     if b0:
@@ -142,8 +159,9 @@ def replay_case(arg):
                 if int(r) != expres["v"]:
                     out.append((site, i + 1, ["reduction"], {"got": int(r), "expected": expres["v"]}))
             elif name == "callerscribbles":
-                if caller is not None:
-                    caller[:] = op["v"]
+                for c_ in callers:
+                    c_[...] = op["v"]
+                callers0 = [c.copy() for c in callers]
         except Exception as ex:
             out.append((site, i + 1, ["raises-%s" % type(ex).__name__], "%s: %s" % (type(ex).__name__, str(ex)[:160])))
             return out
@@ -151,10 +169,11 @@ def replay_case(arg):
         if bad:
             out.append((site, i + 1, bad, {"expected": exp, "iteration": _safe_rows(a)}))
             return out
-        if caller is not None and i == 0 and name != "callerscribbles":
-            # a write to the array must not show in the caller's buffer either
-            if [int(v) for v in caller] != [v for r in init for v in r]:
-                out.append((site, i + 1, ["caller-buffer-aliased"], None))
+        if name != "callerscribbles":
+            # a write to the array must not show in the caller's buffers either
+            if any(not np.array_equal(c_, c0) for c_, c0 in zip(callers, callers0)):
+                out.append((site, i + 1, ["caller-buffer-aliased"], {"construction": form}))
+                return out
     return out
 
 
@@ -174,7 +193,7 @@ def consts(sc):
 def run(ctx):
     ctx.rule = ("TLC generates operation histories from every initial shape (rows of distinct cell ids): all single "
                 "operations, all pairs (thorough), simulated walks of length 6; each history is applied to a real "
-                "RaggedArray built in three ways and all observers are compared after every step; non-trivial = a history "
+                "RaggedArray built by one of six constructor forms (caller's buffers watched) and all observers are compared after every step; non-trivial = a history "
                 "with at least one write that changes a value")
     ctx.assumptions += ["integer elements; shape-preserving assignments, append and operators (the write grammar of DESIGN.md 6/C06); "
                         "index expressions that are invalid on a list of rows are C05's subject and are not generated",
@@ -225,8 +244,8 @@ def run(ctx):
     ctx.notes["simulated_walks"] = nwalk
     if len(cases) < 100 or nwalk == 0:
         raise core.MachineryError("only %d histories / %d walks generated" % (len(cases), nwalk))
-    forms = ["nested", "flat", "lists"]
-    args = [(c, forms[i % 3]) for i, c in enumerate(cases)]
+    forms = ["nested", "flat", "lists", "flat-ndlens", "rect2d", "single-flat"]
+    args = [(c, forms[i % 6]) for i, c in enumerate(cases)]
     outs = core.pmap(replay_case, args, chunk=100)
     for (c, form), out in zip(args, outs):
         writes = [h for h in c["hist"] if h["op"].startswith("set") or h["op"] in ("append", "augmented")]
